@@ -208,7 +208,7 @@ def run(ctx: lib.Ctx) -> None:
                 'literals of 0..33 bytes, all MUL rows with nat/int in both orders; G1/G2: points k*G for k in {0 (infinity), 1, 2, 3, 5, 7, '
                 'r-1, r-2, (r+-1)/2, 2^64, random}, non-canonical infinity encodings (flag 0x40 with other bits/bytes set), ADD/NEG/MUL '
                 'including sums that hit infinity and doubling; PAIRING_CHECK on lists of 0..3 pairs with products equal and unequal to one '
-                'and infinity members. non-trivial = a group/field operation on operands other than the neutral elements 0/1/infinity')
+                'and infinity members before / between / after the pairs that decide the verdict. non-trivial = a group/field operation on operands other than the neutral elements 0/1/infinity')
     ctx.assumptions.append('C21 (partial by nature): the curve groups, scalar multiplication, normalisation and the pairing are py_ecc code, represented in the '
                            'theorems as Section variables with the group/bilinearity laws as hypotheses; the correspondence instantiates them with '
                            'discrete logarithms modulo r and coordinate tables computed by py_ecc; that py_ecc satisfies the hypotheses is only sampled '
@@ -270,13 +270,19 @@ def run(ctx: lib.Ctx) -> None:
             cases.append((tag, 'MUL', [mk(0, e), ('fr_int', 5)]))
         cases.append((tag, 'NEG', [mk(0, b'')]))             # IndexError on value[0]
     # ---- PAIRING_CHECK
-    pcs = [[], [(0, 1)], [(1, 0)], [(1, 1)], [(2, 3), (R - 6, 1)], [(2, 3), (-2, 3)], [(2, 3), (2, -3)], [(2, 3), (3, 2)], [(1, 1), (0, 5), (R - 1, 1)]]
+    # (a, b) stands for (a*G1, b*G2); 0 = infinity.  Infinity pairs are placed BEFORE, BETWEEN and AFTER pairs that decide the verdict
+    quick_pcs = [[], [(0, 1)], [(1, 1)], [(2, 3), (R - 6, 1)], [(2, 3), (2, -3)],
+                 [(0, 5), (1, 1)], [(1, 0), (2, 3)], [(0, 5), (2, 3), (R - 6, 1)], [(1, 1), (0, 5)]]
+    more_pcs = [[(1, 0)], [(2, 3), (-2, 3)], [(2, 3), (3, 2)], [(1, 1), (0, 5), (R - 1, 1)], [(2, 3), (0, 5), (R - 5, 1)],
+                [(0, 7), (3, 1)], [(3, 1), (0, 7)], [(2, 0), (1, 1)], [(0, 0), (1, 1)], [(0, 1), (0, 2), (1, 1), (R - 1, 1)],
+                [(0, 1), (1, 0), (2, 1)], [(1, 1), (R - 1, 1), (0, 3), (1, 2)]]
+    pcs = quick_pcs + (more_pcs if ctx.thorough else [])
     if ctx.thorough:
-        for _ in range(25):
+        for _ in range(20):
             a, b = rng.randrange(1, R), rng.randrange(1, R)
-            pcs += [[(a, b), (-a * b, 1)], [(a, b), (a, b)], [(a, b), (1, -a * b + rng.choice([0, 1]))]]
-    else:
-        pcs = pcs[:7]
+            inf = rng.choice([(0, rng.randrange(1, R)), (rng.randrange(1, R), 0)])
+            pcs += [[(a, b), (-a * b, 1)], [(a, b), (a, b)], [(a, b), (1, -a * b + rng.choice([0, 1]))],
+                    [inf, (a, b), (-a * b + rng.choice([0, 1]), 1)]]
     for pc in pcs:
         cases.append(('pairing', 'PAIRING_CHECK', [('pairs', [((a % R, cv.enc1(a)), (b % R, cv.enc2(b))) for a, b in pc])]))
 
